@@ -309,6 +309,32 @@ def splice(prelude_src, master_src, ext_src, deferred, quarantined=()):
             tail.append(head + "\n" + "\n".join(texts) + "\n}\n")
         else:
             tail.extend(texts)
+    # constants, statics and type aliases of /repo that the contracts do not have: emitted as written
+    def _norm(t):
+        return re.sub(r"\s+", "", t)
+
+    def _simple_items(parsed):
+        out_ = []
+        for top in parsed.items:
+            members = [(top, "")] if top.kind != "impl" else [(c, top) for c in top.children]
+            for it, parent in members:
+                if it.kind == "other":
+                    txt = parsed.src[parsed.toks[it.lo].start:parsed.toks[it.hi - 1].end]
+                    body = re.sub(r"^(\s*#\[[^\]]*\]\s*)*", "", txt)
+                    if re.match(r"(pub(\([^)]*\))?\s+)?(const|static|type)\b", body) and not re.match(r"(pub\s+)?const\s+fn\b", body):
+                        out_.append((it, parent, txt))
+        return out_
+
+    have = set(_norm(t) for _it, _p, t in _simple_items(master))
+    for it, parent, txt in _simple_items(ext):
+        if _norm(txt) in have:
+            continue
+        report.setdefault("new_constants", []).append(re.sub(r"\s+", " ", txt)[:120])
+        if parent == "":
+            tail.append(txt)
+        else:
+            head = ext.src[ext.toks[parent.lo].start:ext.toks[parent.body_lo].end]
+            tail.append(head + "\n" + txt + "\n}\n")
     # apply edits
     out = []
     pos = 0
